@@ -11,55 +11,43 @@ Close Scope Q_scope.
 Close Scope R_scope.
 Open Scope Z_scope.
 
-(* (1) integer -> integer through an integer work type: exact saturation for
-   ALL values of the input type (every integer pair except signed -> uint64). *)
+(* (1) integer -> integer: exact saturation for ALL integer pairs (signed ->
+   uint64 included, which no longer goes through float64) and ALL values of
+   the input type. *)
 Theorem C11_int_to_int_exact : forall i o v,
-  is_int i = true -> is_int o = true -> is_int (promote i o) = true ->
-  in_range i v ->
+  is_int i = true -> is_int o = true -> in_range i v ->
   convert_scalar i o (NI v) = NI (clamp o v).
 Proof. exact int_to_int_exact. Qed.
 Print Assumptions C11_int_to_int_exact.
 
+(* the work type of an integer pair: NumPy's promotion, except signed -> uint64
+   (and uint64 -> signed), where it is the input type *)
 Theorem C11_int_work_pairs : forall i o,
   is_int i = true -> is_int o = true ->
-  is_int (promote i o) = negb (is_signed i && dtype_eqb o U64 || dtype_eqb i U64 && is_signed o).
+  work_dtype i o =
+    if is_signed i && dtype_eqb o U64 || dtype_eqb i U64 && is_signed o then i else promote i o.
 Proof. exact int_work_pairs. Qed.
 Print Assumptions C11_int_work_pairs.
 
 (* (2) float -> unsigned integer: round half to even, then saturate -- for
-   every finite float32/float64 outside the region "output uint64 and value >=
-   2^64" (uint64_top_guard). *)
-Theorem C11_float_to_int_nearest_on_guard : forall i o x,
+   EVERY finite float32/float64 and every unsigned target; values at and above
+   2^64 saturate to 2^64-1 (saturate_top). *)
+Theorem C11_float_to_int_nearest : forall i o x,
   is_int i = false -> is_uint o = true ->
   valid_binary (f_prec (fmt_of i)) (f_emax (fmt_of i)) x = true -> is_finite x = true ->
-  uint64_top_guard i o (NF x) = true ->
   convert_scalar i o (NF x) = nearest_sat o (SF2Q x).
-Proof. exact float_to_int_nearest_on_guard. Qed.
-Print Assumptions C11_float_to_int_nearest_on_guard.
+Proof. exact float_to_int_nearest. Qed.
+Print Assumptions C11_float_to_int_nearest.
 
-(* ... and inside that region the conversion fails everywhere: 0 instead of 2^64-1 *)
-Theorem C11_uint64_top_refuted :
-  exists i o v, uint64_top_guard i o v = false /\ num_finite v = true /\
-    convert_scalar i o v <> nearest_sat o (num2Q v) /\
-    convert_scalar i o v = NI 0 /\ nearest_sat o (num2Q v) = NI (2 ^ 64 - 1).
-Proof. exact uint64_top_refuted. Qed.
-Print Assumptions C11_uint64_top_refuted.
-
-Theorem C11_uint64_top_everywhere : forall i x,
-  is_int i = false ->
-  valid_binary (f_prec (fmt_of i)) (f_emax (fmt_of i)) x = true -> is_finite x = true ->
-  uint64_top_guard i U64 (NF x) = false ->
-  convert_scalar i U64 (NF x) = NI 0 /\ nearest_sat U64 (SF2Q x) = NI (2 ^ 64 - 1).
-Proof. exact uint64_top_everywhere. Qed.
-Print Assumptions C11_uint64_top_everywhere.
-
-(* int64 -> uint64 goes through float64 and loses exactness above 2^53 *)
-Theorem C11_int64_via_float_refuted :
-  exists i o v, int64_via_float_guard i o v = false /\ num_ok i v = true /\
-    convert_scalar i o v <> nearest_sat o (num2Q v) /\
-    convert_scalar i o v = NI (2 ^ 53) /\ nearest_sat o (num2Q v) = NI (2 ^ 53 + 1).
-Proof. exact int64_via_float_refuted. Qed.
-Print Assumptions C11_int64_via_float_refuted.
+(* the two repaired regions, on their former witnesses *)
+Theorem C11_repaired_examples :
+  convert_scalar F64 U64 (NF (of_bits b64 4895412794951729152)) = NI (2 ^ 64 - 1) /\
+  convert_scalar F32 U64 (NF (of_bits b32 1602224128)) = NI (2 ^ 64 - 1) /\
+  convert_scalar I64 U64 (NI (2 ^ 53 + 1)) = NI (2 ^ 53 + 1) /\
+  convert_scalar I64 U64 (NI (2 ^ 63 - 1)) = NI (2 ^ 63 - 1) /\
+  convert_scalar I8 U64 (NI (-5)) = NI 0.
+Proof. exact repaired_examples. Qed.
+Print Assumptions C11_repaired_examples.
 
 (* float64 -> float32 overflows to infinity instead of saturating *)
 Theorem C11_float32_overflow_refuted :
@@ -94,7 +82,7 @@ Print Assumptions C11_result_mode_independent.
 
 Theorem C11_input_after_char : forall i o p wr nat_ l,
   snd (convert i o p wr nat_ l) =
-    if negb p && (round_flag i o || clip_flag i o) && dtype_eqb (promote i o) i && wr && nat_
+    if negb p && (round_flag i o || clip_flag i o) && dtype_eqb (work_dtype i o) i && wr && nat_
     then map (work_value i o) l else l.
 Proof. exact input_after_char. Qed.
 Print Assumptions C11_input_after_char.
